@@ -36,6 +36,7 @@ PROPS["C04"] = {
     "assumptions": ["reference body/digest in harness/common/refvaa.go written from the statement", "go-ethereum keccak trusted"],
     "units": [
         U("TestVerif_C04_Digest", "./pkg/vaa", R(40000), R(200000, shards=16, timeout=900)),
+        U("TestVerif_C04_Processor", "./pkg/processor", R(1500), R(10000, shards=16, timeout=900)),
     ],
 }
 
@@ -97,6 +98,15 @@ PROPS["C14"] = {
                     "retry budget 14400 is the value at the pinned commit", "'about' is read as: lower bounds 4 min (parked) / 50 min (completed), upper bound two ticks after the threshold"],
     "units": [U("TestVerif_C14_Schedule", PROC, R(4000), R(20000, shards=16, timeout=1200)),
               U("TestVerif_C14_Budget", PROC, {"checks": 0, "shards": 1, "timeout": 600}, {"checks": 0, "shards": 1, "timeout": 600}, kind="plain")],
+}
+
+PROPS["C12"] = {
+    "rule": "multisets of signed VAAs over an adversarial id alphabet (chains 0,1,2,4,10,11,17,25,42,255,256,10001,65535; three emitters incl. the "
+            "governance emitter; sequences incl. 2^32 and 2^64-1; overwrites with different signature sets) followed by point lookups (ids and "
+            "near misses, store API and public RPC), gap scans, batch and governance-batch queries, all compared with a Go map; non-trivial = the "
+            "store holds two streams of one emitter whose chain ids are decimal prefixes of each other",
+    "assumptions": ["firstSeq == 0 is pinned by the repository's own test and taken as specified", "RPC handlers are called directly (no gRPC transport)"],
+    "units": [U("TestVerif_C12_Store", "./pkg/publicrpc", R(2500), R(15000, shards=16, timeout=1200))],
 }
 
 def setup():
